@@ -178,9 +178,11 @@ impl ZMap {
     { unimplemented!() }
     // plausible foreign calls: accepted, nothing promised
     #[verifier::external_body]
-    pub fn first_key(&self) -> u32 { unimplemented!() }
+    pub fn first_key_value(&self) -> Option<(&u32, &ZoomValue)> { unimplemented!() }
     #[verifier::external_body]
-    pub fn first_value_mut(&mut self) -> Option<&mut ZoomValue> { unimplemented!() }
+    pub fn last_key_value(&self) -> Option<(&u32, &ZoomValue)> { unimplemented!() }
+    #[verifier::external_body]
+    pub fn contains_key(&self, k: &u32) -> bool { unimplemented!() }
     #[verifier::external_body]
     pub fn len(&self) -> usize { unimplemented!() }
 }
@@ -324,6 +326,7 @@ pub open spec fn cat_data0(q: Seq<DataWithoutzooms>, n: int) -> Seq<u8>
 //@loopend 1
         proof {
             i = i + 1;
+            [[L: nz/loop/step/file_got_this_chromosomes_staged_bytes]]
             assert(file.bytes() =~= f0 + cat_data0(q, i));
         }
 //@end
@@ -431,12 +434,14 @@ pub open spec fn cat_data0(q: Seq<DataWithoutzooms>, n: int) -> Seq<u8>
                 zooms_map@.dom() == dom,
                 forall|x: u32| dom.contains(x) ==> (#[trigger] zooms_map@[x]).0 == zm1[x].0 && zooms_map@[x].1 == zm1[x].1
                     && zooms_map@[x].2 == (if zidx(zs, x) < j__ { None::<ZoomWriter> } else { zm1[x].2 }),
-//@at /let zoom = level_present\(zooms_map\.get_mut\(size\)\);/ before
+//@at /let zoom = / nth=1 before
             proof { lemma_zidx(zs, j__ as int); }
             let ghost zmb = zooms_map@;
 //@loopend 2
             proof {
+                [[L: switch_loop/step/levels_stay_the_same]]
                 assert(zooms_map@.dom() =~= dom);
+                [[L: switch_loop/step/only_the_writer_slot_of_this_resolution_is_emptied]]
                 assert forall|x: u32| dom.contains(x) implies (#[trigger] zooms_map@[x]).0 == zm1[x].0 && zooms_map@[x].1 == zm1[x].1
                     && zooms_map@[x].2 == (if zidx(zs, x) < j__ + 1 { None::<ZoomWriter> } else { zm1[x].2 }) by {
                     if x != zs[j__ as int].resolution {
@@ -453,6 +458,7 @@ pub open spec fn cat_data0(q: Seq<DataWithoutzooms>, n: int) -> Seq<u8>
         proof {
             zl = zooms@;
             jj = 0;
+            [[L: loop/step/file_got_this_chromosomes_staged_bytes]]
             assert(file.bytes() =~= f0 + cat_data(q, i + 1));
         }
 //@loop 3
@@ -474,7 +480,7 @@ pub open spec fn cat_data0(q: Seq<DataWithoutzooms>, n: int) -> Seq<u8>
             decreases
                 [[L: join_loop/termination]]
                 src__@.len(),
-//@at /let zoom = level_present\(zooms_map\.get_mut\(&resolution\)\);/ before
+//@at /let zoom = / nth=2 before
             proof {
                 assert(zl.subrange(jj, zs.len() as int)[0] == zl[jj]);
                 assert(zl.subrange(jj, zs.len() as int).remove(0) =~= zl.subrange(jj + 1, zs.len() as int));
@@ -487,7 +493,9 @@ pub open spec fn cat_data0(q: Seq<DataWithoutzooms>, n: int) -> Seq<u8>
             proof { done__ = done__.insert(zh__); }
 //@loopend 3
             proof {
+                [[L: join_loop/step/levels_stay_the_same]]
                 assert(zooms_map@.dom() =~= dom);
+                [[L: join_loop/step/this_level_got_its_own_bytes_and_section_list_and_its_writer_back_the_others_are_untouched]]
                 assert forall|x: u32| dom.contains(x) implies (#[trigger] zooms_map@[x]).1 == zm1[x].1
                     && (if zidx(zs, x) < jj + 1 {
                             zooms_map@[x].0@ == zm1[x].0@.push(iter_of(zs[zidx(zs, x)].sections))
@@ -504,6 +512,7 @@ pub open spec fn cat_data0(q: Seq<DataWithoutzooms>, n: int) -> Seq<u8>
             }
 //@loopend 1
         proof {
+            [[L: loop/step/every_level_after_this_chromosome]]
             assert forall|x: u32| dom.contains(x) implies level_after(#[trigger] zooms_map@[x], zm0[x], q, i + 1, x) by {
                 assert(level_after(zm1[x], zm0[x], q, i, x));
                 assert(zinfo(q[i], x) == zs[zidx(zs, x)]);
